@@ -376,11 +376,14 @@ pub fn text_spaces(tier: Tier, oracle: fn(&str, &mut Ctx)) -> Vec<Box<dyn Space>
     v
 }
 
-fn fault_oracle(case: &crate::model::ProgCase, _index: u64, ctx: &mut Ctx) {
+fn fault_oracle(case: &crate::model::ProgCase, index: u64, ctx: &mut Ctx) {
+    // the replay regenerates the program from its index and runs all its faults again
+    ctx.case_extra = Some(serde_json::json!({ "index": index }));
     crate::props::gprog::for_each_fault(case, &mut |t| {
         ctx.count("single_fault_texts", 1);
         oracle(t, ctx)
     });
+    ctx.case_extra = None;
 }
 
 pub fn spaces(tier: Tier, _seed: u64) -> Vec<Box<dyn Space>> {
